@@ -54,6 +54,11 @@ func main() {
 	if kp := os.Getenv("VERIF_KNOWN"); kp != "" {
 		c.LoadKnown(kp)
 	}
+	if *prop != "C18" {
+		// one monitor goroutine, pinned to its thread: per-call CPU accounting (see core.Call)
+		runtime.LockOSThread()
+		c.CPUGuard = true
+	}
 	if *replayIdx >= 0 {
 		c.Replaying, c.ReplayJob, c.ReplayIndex = true, *replayJob, *replayIdx
 	}
